@@ -22,6 +22,7 @@ type scriptSrc struct {
 	uniform int
 	dev     map[int]int
 	served  []int
+	eofWithData bool // the call that delivers the last bytes returns (n, io.EOF), as many readers do
 }
 
 func (s *scriptSrc) Read(p []byte) (int, error) {
@@ -40,6 +41,9 @@ func (s *scriptSrc) Read(p []byte) (int, error) {
 	copy(p, s.data[s.off:s.off+n])
 	s.off += n
 	s.served = append(s.served, n)
+	if s.eofWithData && s.off >= len(s.data) {
+		return n, io.EOF
+	}
 	return n, nil
 }
 func (s *scriptSrc) Close() error { return nil }
@@ -53,9 +57,13 @@ type granCase struct {
 	Uniform int    `json:"uniform"`
 	Dev     [][2]int `json:"dev,omitempty"` // (call index, max size)
 	RBSeq   []int  `json:"read_buf_seq,omitempty"`
+	EOFWithData bool `json:"eof_with_last_bytes,omitempty"`
 }
 
 func (g granCase) String() string {
+	if g.EOFWithData {
+		return fmt.Sprintf("%s|%d|%s|%d|%d|%d|%v|%v|eof-with-data", g.Level, g.Prog, g.P, g.Len, g.Jobs, g.Uniform, g.Dev, g.RBSeq)
+	}
 	return fmt.Sprintf("%s|%d|%s|%d|%d|%d|%v|%v", g.Level, g.Prog, g.P, g.Len, g.Jobs, g.Uniform, g.Dev, g.RBSeq)
 }
 
@@ -136,7 +144,7 @@ func runGran(g granCase) (*Fail, bool) {
 		if e0 != "" {
 			return failf("harness", "baseline program failed: %s", e0), false
 		}
-		src := &scriptSrc{data: data, uniform: g.Uniform, dev: dev}
+		src := &scriptSrc{data: data, uniform: g.Uniform, dev: dev, eofWithData: g.EOFWithData}
 		v1, a1, r1, e1 := runBitProgram(prog, src, data)
 		if e1 != "" {
 			return failf("bitstream-fails-on-short-reads "+pc, "program %d, source answers %v...: %s", g.Prog, head(src.served, 12), e1), true
@@ -156,7 +164,7 @@ func runGran(g granCase) (*Fail, bool) {
 		if err != nil {
 			return failf("harness", "%v", err), false
 		}
-		src := &scriptSrc{data: stream, uniform: g.Uniform, dev: dev}
+		src := &scriptSrc{data: stream, uniform: g.Uniform, dev: dev, eofWithData: g.EOFWithData}
 		r, err := kio.NewReaderWithCtx(src, map[string]any{"jobs": g.Jobs})
 		if err != nil {
 			return failf("harness", "%v", err), false
@@ -210,7 +218,7 @@ var famGran = NewFamily("C06.policy", runGran)
 
 func init() {
 	register("C06", "fault_enumeration", func(c *Ctx) {
-		c.Rule("environment-answer enumeration: the underlying source answers each Read with a size chosen by the explorer. Bitstream level: 6 read programs (ReadBits widths, aligned and unaligned ReadArray of 8..40000 bits) over DefaultInputBitStream(1024) x every uniform policy k in {1..17,64,1000} x every sequence with <= 2 deviations (call index 0..7 x size in {1,3,7,8,9,13,15,16,24}). Stream level: Reader(jobs 1,3) on {NONE, LZ/HUFFMAN, BWT/ANS0} x checksum {0,32} seeds x the same uniform policies and 1-deviation sequences, incl. streams larger than the 256 KiB bitstream buffer. Read side: all sequences of Read buffer lengths over {0,1,7,B-1,B,B+1,4B} of length 1..3 (4 in thorough), applied cyclically. (Write partitions: C04(iii).) Oracle: identical bytes, counters and terminal status as the all-at-once run. Non-trivial = at least one short answer")
+		c.Rule("environment-answer enumeration: the underlying source answers each Read with a size chosen by the explorer. Bitstream level: 6 read programs (ReadBits widths, aligned and unaligned ReadArray of 8..40000 bits) over DefaultInputBitStream(1024) x every uniform policy k in {1..17,64,1000} x every sequence with <= 2 deviations (call index 0..7 x size in {1,3,7,8,9,13,15,16,24}). Stream level: Reader(jobs 1,3) on {NONE, LZ/HUFFMAN, BWT/ANS0} x checksum {0,32} seeds x the same uniform policies and 1-deviation sequences, incl. streams larger than the 256 KiB bitstream buffer. Read side: all sequences of Read buffer lengths over {0,1,7,B-1,B,B+1,4B} of length 1..3 (4 in thorough), applied cyclically. (Write partitions: C04(iii).) Also: the call that delivers the last bytes returns io.EOF with them. Oracle: identical bytes, counters and terminal status as the all-at-once run. Non-trivial = at least one short answer")
 		c.Assume("a conforming io.Writer cannot accept fewer bytes without an error, so the sink side has no size behaviour beyond the library's own call sizes (faulty sinks: C08)")
 		uniforms := []int{0, 1, 2, 3, 4, 5, 6, 7, 8, 9, 10, 11, 12, 13, 14, 15, 16, 17, 64, 1000}
 		devSizes := []int{1, 3, 7, 8, 9, 13, 15, 16, 24}
@@ -218,6 +226,7 @@ func init() {
 			for pi := range bitPrograms {
 				for _, u := range uniforms {
 					emit(granCase{Level: "bits", Prog: pi, Uniform: u})
+					emit(granCase{Level: "bits", Prog: pi, Uniform: u, EOFWithData: true})
 				}
 				for i := 0; i < 8; i++ {
 					for _, s := range devSizes {
@@ -237,11 +246,7 @@ func init() {
 						p := Params{cd[0], cd[1], B, 2, ck, -1, false, false}
 						for _, u := range uniforms {
 							emit(granCase{Level: "stream", P: p, Len: 5*B + 300, Jobs: j, Uniform: u})
-						}
-						for i := 0; i < 6; i++ {
-							for _, s := range devSizes {
-								emit(granCase{Level: "stream", P: p, Len: 5*B + 300, Jobs: j, Dev: [][2]int{{i, s}}})
-							}
+							emit(granCase{Level: "stream", P: p, Len: 5*B + 300, Jobs: j, Uniform: u, EOFWithData: true})
 						}
 					}
 				}
